@@ -133,6 +133,11 @@ def generate(rng, tier, idx):
         for t in rng.sample(fl, min(len(fl), rng.choice([1, 1, 2]))):
             t.pop('c', None)
             t['prng'] = [rng.getrandbits(32), rng.choice([65535, 65536, 65537, 90001, 131072, 131089, 150000, 1048575, 1048577])]
+    if rng.random() < 0.25:
+        # dot-directories (which gemato never looks into), two or three of them side by side
+        where = rng.choice([''] + [d + '/files' for d in roles['package_dirs']] + list(roles['package_dirs']))
+        for nm in rng.sample(['.git', '.github', '.orig', '.rej', '.cache'], rng.choice([2, 2, 3])):
+            g['tree'].append({'p': (where + '/' if where else '') + nm + '/inner-%s' % nm.strip('.'), 'k': 'file', 'c': 'hidden ' + nm})
     return {'prop': ID, 'order_key': '%016x' % rng.getrandbits(64), 'tree': g['tree'],
             'roles': {'package_dirs': roles['package_dirs'], 'categories': roles['categories']},
             'dist': dist, 'mode': mode, 'edits': edits, 'regen': regen}
